@@ -127,6 +127,8 @@ pub struct Shared {
     pub stall_next_flush: bool,
     /// write calls made by the current operation
     pub op_writes: u32,
+    /// the transport answered Ok(0) in this call and (`write_zero_sticky`) goes on doing so until the call returns
+    pub zero_latched: bool,
     /// the previous write call of the current operation was answered with a partial accept
     pub last_write_partial: bool,
     /// (index of the write call that was answered Pending, previous write was partial)
@@ -234,6 +236,10 @@ impl Shared {
         self.oracle.write_offered(c, buf);
         let write_idx = self.op_writes;
         self.op_writes += 1;
+        if self.zero_latched && self.explore() {
+            self.log(|| format!("  io c{} write returns Ok(0) again", c));
+            return Poll::Ready(Ok(0));
+        }
         if self.pend_at_write == Some(write_idx) {
             self.pend_at_write = None;
             self.force_cancel = true;
@@ -329,6 +335,7 @@ impl Shared {
                 Poll::Ready(Err(self.fault_kind()))
             }
             A::Zero => {
+                self.zero_latched = self.cfg.io.write_zero_sticky;
                 self.log(|| format!("  io c{} write returns Ok(0)", c));
                 Poll::Ready(Ok(0))
             }
@@ -1309,7 +1316,7 @@ impl<'v> World<'v> {
         let (io, id) = self.new_io();
         self.log(|| format!("api: connect (transport c{})", id));
         self.sh.borrow_mut().oracle.op_begin("connect", None);
-        self.sh.borrow_mut().op_calls = 0;
+        { let mut shx = self.sh.borrow_mut(); shx.op_calls = 0; shx.zero_latched = false; }
         let cancel_connect = self.cfg.cancel_connect;
         let r = self.drive(session.connect(io), Some(id), cancel_connect);
         match r {
@@ -1645,7 +1652,7 @@ impl<'v> World<'v> {
                         self.begin_drain();
                     }
                     for _ in 0..16 {
-                        self.sh.borrow_mut().op_calls = 0;
+                        { let mut shx = self.sh.borrow_mut(); shx.op_calls = 0; shx.zero_latched = false; }
                         self.sh.borrow_mut().oracle.op_begin("poll", None);
                         self.log(|| "api: poll".to_string());
                         let res = match self.drive(conn.poll(), Some(id), true) {
@@ -1720,6 +1727,7 @@ impl<'v> World<'v> {
             let mut sh = self.sh.borrow_mut();
             sh.op_calls = 0;
             sh.op_writes = 0;
+            sh.zero_latched = false;
             sh.last_write_partial = false;
             sh.pend_write_info = None;
             sh.pend_at_write = self.cur_pend_at.take();
@@ -2182,7 +2190,7 @@ impl<'v> World<'v> {
                 break;
             }
             polls += 1;
-            self.sh.borrow_mut().op_calls = 0;
+            { let mut shx = self.sh.borrow_mut(); shx.op_calls = 0; shx.zero_latched = false; }
             self.sh.borrow_mut().oracle.op_begin("poll", None);
             self.log(|| "api: poll".to_string());
             let progress0 = self.sh.borrow().progress;
@@ -2629,6 +2637,7 @@ pub fn run_inner(
         stall_next_write: false,
         stall_next_flush: false,
         op_writes: 0,
+        zero_latched: false,
         last_write_partial: false,
         pend_write_info: None,
         pend_at_write: None,
